@@ -114,11 +114,23 @@ def tag_discrimination(ctx, report):
         if not called or not tagged_check:
             report.add('C09.R4', '%s@tag[%s]' % (f.construct, tag),
                        '%s never compares the tag on the wire with %s(): another message of the family parses "successfully" as %s' % (c.name, tag, c.name))
-    # LDAP: protocolOp name must be compared
+    # LDAP: protocolOp name must be compared: decided by evaluating the two parsers over a family of protocolOp alternatives
+    # (sa/ldapbridge.py); on their syntax when they leave the evaluable subset
+    from ..ldapbridge import evaluate_messages
+    ldap = evaluate_messages(ctx, load_spec('opp.json')['constants']['starttls_oid'])
+    if not ldap['evaluated']:
+        report.undecided.append('C09.R4: the LDAP message parsers left the subset the evaluation understands (%s); decided on their syntax' % ldap['why'])
     for cname, want in (('LDAPExtendedRequestStartTLS', 'extendedReq'), ('LDAPExtendedResponseStartTLS', 'extendedResp')):
         c = model.cls(cname)
         f = c.methods.get('_parse')
         report.count('C09.R4')
+        if ldap['evaluated']:
+            report.count('C09.R4', ldap['runs'] // 2)
+            for aspect in ('tag[%s]' % cname, 'accepts[%s]' % cname, 'length[%s]' % cname):
+                if aspect in ldap['problems']:
+                    report.add('C09.R4', f.construct + '@' + (aspect.split('[')[0] + '[protocolOp]' if aspect.startswith('tag') else aspect.split('[')[0]),
+                               '%s: %s' % (cname, ldap['problems'][aspect]))
+            continue
         ok = False
         for n in ast.walk(f.node):
             if isinstance(n, ast.If) and "['protocolOp'].name" in ast.unparse(n.test) and want in ast.unparse(n.test) and \
@@ -185,8 +197,10 @@ def constants(ctx, report):
         report.add('C09.R5', c.construct + '@oid', 'StartTLS request name is not %s' % spec['starttls_oid'])
     # ... and the parser has to look at it: every extended request has the same protocolOp, the request name tells them apart
     report.count('C09.R5')
-    ok = False
-    for n in ast.walk(c.methods['_parse'].node):
+    from ..ldapbridge import evaluate_messages
+    ldap = evaluate_messages(ctx, spec['starttls_oid'])
+    ok = ldap['evaluated'] and 'request-name' not in ldap['problems']
+    for n in ast.walk(c.methods['_parse'].node) if not ldap['evaluated'] else ():
         if isinstance(n, ast.If) and any(isinstance(x, ast.Raise) for x in n.body):
             t = with_constants(n.test)
             if 'requestName' in t and spec['starttls_oid'] in t and ('!=' in t or 'not in' in t):
@@ -216,7 +230,12 @@ def constants(ctx, report):
 
 def ldap_schema(ctx, report):
     from .. import rejections
-    rejections.check(ctx, report, 'C09.R8', 'opp')
+    from ..ldapbridge import evaluate_messages
+    ldap = evaluate_messages(ctx, load_spec('opp.json')['constants']['starttls_oid'])
+    # the LDAP message parsers: what they accept and refuse is decided by evaluation (C09.R4) when that is possible; the
+    # table of explicit rejections covers them otherwise, and the other protocols always
+    rejections.check(ctx, report, 'C09.R8', 'opp', skip=(lambda construct: ldap['evaluated'] and 'tls/ldap.py:LDAPExtended' in construct
+                                                          or ldap['evaluated'] and construct.endswith('._parse_protocol_op')))
     null_terminated(ctx, report)
     report.rule('C09.R6', 'asn1crypto schema tables equal RFC 4511')
     spec = load_spec('opp.json')['ldap']
